@@ -321,3 +321,14 @@ def repo_call_generic(label):
         bound.update(kwargs)
         return sym.CallRes(label, bound)
     return f
+
+
+class RawObjValue:
+    """a plain namespace value (e.g. a class object with a dict attribute) for globals"""
+    def __init__(self, cls, **fields):
+        self.cls, self.fields = cls, fields
+
+    def pyvc_getattr(self, m, attr):
+        if attr in self.fields:
+            return self.fields[attr]
+        raise Unsupported("%s.%s" % (self.cls, attr))
